@@ -9,7 +9,6 @@ import (
 	"encoding/binary"
 	"fmt"
 	"net"
-	"os"
 	"sort"
 	"strings"
 	"sync"
@@ -88,6 +87,7 @@ type atk struct {
 	seq         int
 	sig         []string
 	unsol       int
+	flipMux     bool
 }
 
 func (a *atk) stream() (net.Conn, bool) {
@@ -95,6 +95,9 @@ func (a *atk) stream() (net.Conn, bool) {
 		if a.tp == nil {
 			o := transportOpts(a.si, a.tr)
 			o.SkipLogin = true
+			if a.flipMux {
+				o.TCPMux = !o.TCPMux // speak the other framing than the listener expects
+			}
 			p, err := h.DialPeer(o)
 			if err != nil {
 				continue
@@ -152,12 +155,26 @@ func (a *atk) fuzzLogin(lm *msg.Login) string {
 	}
 }
 
+// wdog: with mismatched framing nothing is expected back, do not wait long for it
+func (a *atk) wdog(key string) time.Duration {
+	if a.flipMux {
+		return 300 * time.Millisecond
+	}
+	return wd(key)
+}
+
 func (a *atk) vio(key, format string, args ...any) {
 	a.c.Violation(key, "[%s/%s] "+format, append([]any{a.si.Name, a.tr}, args...)...)
 }
 
 // afterRefusal: the connection of a refused attempt must end without further data.
 func (a *atk) afterRefusal(conn net.Conn, what string) {
+	if a.flipMux {
+		// framing mismatch: what comes back belongs to the multiplexing layer (or, on kcp without it, no
+		// closure is observable at all); only "no success reply" and the ledgers are judged
+		conn.Close()
+		return
+	}
 	key := "refused-" + what + "-connection-not-closed"
 	closed, extra := readRest(conn, wd(key))
 	if extra > 0 {
@@ -173,7 +190,7 @@ func (a *atk) afterRefusal(conn net.Conn, what string) {
 // judgeLoginReply reads the reply to a login that carried no valid key.
 func (a *atk) judgeLoginReply(conn net.Conn, desc string, specClaimed bool) {
 	key := "refused-login-connection-not-closed"
-	_ = conn.SetReadDeadline(time.Now().Add(wd(key)))
+	_ = conn.SetReadDeadline(time.Now().Add(a.wdog(key)))
 	var resp msg.LoginResp
 	t0 := time.Now()
 	err := msg.ReadMsgInto(conn, &resp)
@@ -189,6 +206,9 @@ func (a *atk) judgeLoginReply(conn net.Conn, desc string, specClaimed bool) {
 		return
 	case err == nil:
 		run.Count("bad_logins_refused_with_reply", 1)
+	case a.flipMux:
+		conn.Close()
+		return
 	case time.Since(t0) >= wd(key)-50*time.Millisecond && isTimeout(err):
 		wdFired(key)
 		a.vio(key, "no reply and no close within the watchdog for %s", desc)
@@ -221,7 +241,7 @@ func (a *atk) badLogin() {
 	a.sig = append(a.sig, "L:"+kind+":"+idKind)
 	if _, err := conn.Write(buf); err != nil {
 		conn.Close()
-		run.Inconclusive("write failed")
+		run.Count("attempts_write_failed", 1)
 		return
 	}
 	run.Count("bad_logins", 1)
@@ -344,8 +364,8 @@ func (a *atk) firstMsg() {
 	}
 	run.Count("first_messages", 1)
 	key := "unauthenticated-first-message-connection-not-closed"
-	d := wd(key)
-	if o.slow {
+	d := a.wdog(key)
+	if o.slow && !a.flipMux {
 		d += 30 * time.Second // 3 x connReadTimeout (10 s) + 10 s
 		if wd(key) < 20*time.Second {
 			d = time.Second
@@ -372,10 +392,19 @@ func (a *atk) firstMsg() {
 		if bad {
 			a.vio("success-reply-to-unauthenticated-first-message", "first message %s on a fresh connection was answered with %T without error", o.kind, m)
 		}
+	} else if a.flipMux {
+		conn.Close()
+		run.Count("first_messages_refused", 1)
+		return
 	} else if time.Since(t0) >= d-50*time.Millisecond && isTimeout(err) {
 		wdFired(key)
 		a.vio(key, "first message %s: connection neither answered nor closed within %v", o.kind, d)
 		conn.Close()
+		return
+	}
+	if a.flipMux {
+		conn.Close()
+		run.Count("first_messages_refused", 1)
 		return
 	}
 	closed, _ := readRest(conn, wd(key))
@@ -400,7 +429,7 @@ func (a *atk) workConnExpectRefused(m *msg.NewWorkConn, why string, knownSession
 	}
 	run.Count("bad_workconns", 1)
 	key := "refused-workconn-connection-not-closed"
-	d := wd(key)
+	d := a.wdog(key)
 	_ = conn.SetReadDeadline(time.Now().Add(d))
 	var st msg.StartWorkConn
 	t0 := time.Now()
@@ -412,6 +441,9 @@ func (a *atk) workConnExpectRefused(m *msg.NewWorkConn, why string, knownSession
 		return
 	case err == nil:
 		run.Count("bad_workconns_error_reply", 1)
+	case a.flipMux:
+		conn.Close()
+		return
 	case time.Since(t0) >= d-50*time.Millisecond && isTimeout(err):
 		wdFired(key)
 		pooled := ""
@@ -560,12 +592,6 @@ func (a *atk) ping() {
 // ---------------------------------------------------------------------------------------------
 
 func attackCase(c *h.Case, si *srvInfo, tr string) {
-	t0 := time.Now()
-	defer func() {
-		if d := time.Since(t0); d > 5*time.Second {
-			fmt.Fprintf(os.Stderr, "slow attack case %d (%s/%s): %v steps %v\n", c.Idx, si.Name, tr, d.Round(time.Millisecond), c.Data["sig"])
-		}
-	}()
 	a := &atk{c: c, si: si, tr: tr, tag: fmt.Sprintf("c%d", c.Idx)}
 	rng := c.Rng
 	nSteps := 4 + rng.Intn(7)
@@ -576,12 +602,17 @@ func attackCase(c *h.Case, si *srvInfo, tr string) {
 		return
 	}
 	// positive control: the same kind of login with a valid key is accepted and can register a proxy
+	a.flipMux = tr != "quic" && rng.Intn(8) == 0
+	c.Data["attacker_flips_mux"] = a.flipMux
 	v, err := loginHonest(si, tr, a.tag, "V-"+a.tag, 0)
 	if err != nil {
+		// the attack still runs over tr; only the positive control moves to plain tcp
 		c.Ev("positive-control-login-failed", "err", err.Error())
 		run.Inconclusive("positive control login failed (" + tr + ")")
 		run.Count("positive_control_login_failed", 1)
-		return
+		if v, err = loginHonest(si, "tcp", a.tag, "V-"+a.tag, 0); err != nil {
+			return
+		}
 	}
 	a.victim = v
 	defer v.Close()
@@ -622,7 +653,7 @@ func attackCase(c *h.Case, si *srvInfo, tr string) {
 	c.Data["sig"] = append([]string{}, a.sig...)
 	a.ledger()
 	sort.Strings(a.sig)
-	run.Distinct("attack|" + si.Name + "|" + tr + "|" + strings.Join(a.sig, ","))
+	run.Distinct(fmt.Sprintf("attack|%s|%s|%v|%s", si.Name, tr, a.flipMux, strings.Join(a.sig, ",")))
 	if c.Idx < 3 {
 		run.Sample(map[string]any{"kind": "attack", "server": si.Name, "transport": tr, "steps": a.sig})
 	}
@@ -789,8 +820,17 @@ func barrageCase(c *h.Case, si *srvInfo, tr string) {
 					b = frame(&msg.NewProxy{ProxyName: tag + ".atk.b", ProxyType: "stcp", Sk: "k"})
 				}
 				_, _ = conn.Write(b)
-				_ = conn.SetReadDeadline(time.Now().Add(20 * time.Second))
+				key := "barrage-attempt-neither-answered-nor-closed"
+				d := wd(key)
+				_ = conn.SetReadDeadline(time.Now().Add(d))
+				t0 := time.Now()
 				m, err := msg.ReadMsg(conn)
+				if err != nil && time.Since(t0) >= d-50*time.Millisecond && isTimeout(err) {
+					wdFired(key)
+					c.Violation(key, "[%s/%s] an unauthenticated attempt of a barrage (kind %d) was neither answered nor closed within the watchdog", si.Name, tr, kindSel)
+					conn.Close()
+					return
+				}
 				ok := false
 				if err == nil {
 					switch x := m.(type) {
